@@ -117,8 +117,9 @@ Theorem C15_present : forall hist s k,
   is_some (find_table s k) = spec_present hist k.
 Proof. exact run_present. Qed.
 
-(* the binary search that slice::partition_point runs returns, on the partitioned slices of the
-   invariant, the index the model uses *)
+(* [bsearch], a hand transcription of the nightly core::slice::binary_search_by (what
+   slice::partition_point calls), returns, on the partitioned slices of the invariant, the index
+   the model uses *)
 Theorem C15_bsearch : forall l x, tablets_inv l ->
   partition_point_bs (fun t => t_last t <? x) l = partition_point (fun t => t_last t <? x) l /\
   partition_point_bs (fun t => t_first t <=? x) l = partition_point (fun t => t_first t <=? x) l.
